@@ -30,6 +30,8 @@ PROPS = {
     "C11": dict(level="translation_validation", streams=[("T1", 3000)], configs_quick=Q4, configs_thorough=T4, theorems={}),
     "C13": dict(level="proof", streams=[("M1", 4000), ("S0", 2000)], configs_quick=Q4, configs_thorough=T4,
                 theorems={"Voi.Props.StrobeInv": STROBE_THMS}),
+    "C14": dict(level="translation_validation", streams=[("H1", 2500), ("H2", 2000)], configs_quick=Q4, configs_thorough=T4, theorems={}),
+    "C15": dict(level="translation_validation", streams=[("E1", 2000)], configs_quick=Q4, configs_thorough=T4, theorems={}),
     "C17": dict(level="translation_validation", streams=[("R1", 4000)], configs_quick=["default", "force32bit"], configs_thorough=T4, theorems={}),
 }
 NOT_YET = {}
